@@ -58,8 +58,9 @@ def walks(count, rng):
                "pkt": rng.randrange(NSHAPES)} for _ in range(n)]
         calls = []
         for _ in range(rng.randrange(1, 5)):
-            api = rng.choice(["next", "loop", "loopmax", "iter"])
-            calls.append({"api": api, "k": 0 if api == "next" else rng.randrange(1 if api == "loopmax" else 0, 6)})
+            api = rng.choice(["next", "loop", "loopmax", "iter", "next", "loop", "loopmax", "iter", "setfilter"])
+            calls.append({"api": api, "k": rng.choice([0, 0, rng.randrange(NFILTERS)]) if api == "setfilter" else
+                          0 if api == "next" else rng.randrange(1 if api == "loopmax" else 0, 6)})
         out.append({"lt": rng.choice(LTS), "filter": rng.randrange(NFILTERS) if rng.random() < 0.6 else 0, "frames": fr, "calls": calls})
     return out
 
